@@ -18,8 +18,8 @@ FINISH = {"level": "other", "explanation": "deterministic clauses (empty sketch 
 
 
 def run(chk):
-    for q in ("hyperloglog._linear_counting", "hyperloglog._estimation_function", "hyperloglog._query", "hyperloglog._add"):
-        chk.kernel(q)
+    for q in ("hyperloglog._linear_counting", "hyperloglog._estimation_function", "hyperloglog._query", "hashes.fasthash64", "hyperloglog._n_leading_zeros64", "hyperloglog._add"):
+        chk.kernel(q)  # incl. the hash: the envelope presupposes that distinct keys are hashed by the reference FastHash64
     m, thr, n = z3.Ints("m thr n")
     alpha, res, es = z3.Reals("alpha res esum")
     tag = z3.Int("tag_regs")
